@@ -216,6 +216,40 @@ def cli_leg(ctx, model, langs):
             elif tuple(g) != tuple(want) or g[0] != phys:
                 fails.append({"what": "stats files reports %s for %s, the model (count on the lossy text) says %s, physical lines %d" % (g, name, want, phys), "file": name})
     ctx.cov["cli_whole_files"] = len(files)
+    # the same bytes under several languages, dated long ago, counted with the cache ON (the in-memory cache is shared
+    # by the workers of one run, the file cache by successive runs): the statistics of a file are a function of its
+    # content and ITS OWN syntax, whatever was counted before it
+    twins = {}
+    text = "# build notes\n// more notes\n-- even more\nlet x = 1;\n\n; tail\n% pct\n"
+    for ext in ("js", "py", "rs", "lua", "sql", "rb", "c", "hs", "tex", "lisp", "erl", "sh"):
+        sy = [l for l in langs if ext in l.exts]
+        if sy:
+            twins["notes." + ext] = sy[0]
+    if len(twins) >= 3:
+        with Sandbox() as sb:
+            order = list(twins)
+            rng.shuffle(order)
+            for name in order:
+                fp = sb.write(name, text)
+                os.utime(fp, (1600000000, 1600000000))
+            mo, _, _ = run_lines(model, ["count\t%s\t%s" % (twins[n].wire(), enc(text)) for n in order])
+            want = {n: (parse_out(m)["stats"] or [None] * 4)[:4] for n, m in zip(order, mo)}
+            for rnd, threads in enumerate(("1", "1", "4")):
+                rc, out, err = sb.run(exe, ["stats", "files", "--no-config", "--no-gitignore", "--format", "json", "--top", "100", "."], env={"RAYON_NUM_THREADS": threads})
+                try:
+                    j = _json.loads(out)
+                    rows = j.get("top_files") or j.get("files") or []
+                    got = {os.path.basename(r["path"]): [r["total"], r["code"], r["comment"], r["blank"]] for r in rows}
+                except Exception:
+                    fails.append({"what": "stats files on identical files of several languages: unparsable output (exit %s): %s %s" % (rc, out[:200], err[:300])})
+                    break
+                for n in order:
+                    if n in got and want[n][0] is not None and list(got[n]) != list(want[n]):
+                        fails.append({"what": "identical bytes under several languages, cache on, run %d: %s is reported as %s, its own syntax gives %s (text %r; other files: %s)"
+                                              % (rnd + 1, n, got[n], list(want[n]), text, sorted(set(order) - {n})), "file": n})
+                if fails:
+                    break
+        ctx.cov["cli_identical_bytes_languages"] = len(twins)
     return fails
 
 
